@@ -316,7 +316,8 @@ func vh_lease_loop() {
 // Whatever the target does (acknowledges TimeoutNow and never takes over, RPC
 // fails), the future resolves and the transfer flag is cleared. C17.LOOP-ANSWERS.
 func vh_leadership_transfer() {
-	r, env := vNewRaft("L", vRaftOpts{n: 2, w: 3, shaped: true})
+	n := 2 + vChoose("extraServer", 0, 1)
+	r, env := vNewRaft("L", vRaftOpts{n: n, w: 3, shaped: true})
 	vAssume(r.lastSnapshotIndex == vBase() && env.logs.low == vBase()+1 && env.logs.high == vBase()+1)
 	vAssume(vInvBasic(r, env))
 	vAssume(vInvLog(r, env, 3))
@@ -325,6 +326,11 @@ func vh_leadership_transfer() {
 	vMakeLeader(r, "L", 0)
 	s := r.leaderState.replState[servers[1].ID]
 	s.nextIndex = r.getLastIndex() + 1 // the target is caught up
+	if n == 3 {
+		// a third server of arbitrary suffrage that is at least as far along: only a voter may be picked
+		s3 := r.leaderState.replState[servers[2].ID]
+		s3.nextIndex = r.getLastIndex() + 1 + uint64(vChoose("thirdAhead", 0, 1))
+	}
 	env.trans.timeoutNowFails = vChoose("timeoutNowFails", 0, 1) == 1
 	fut := &leadershipTransferFuture{}
 	fut.init()
@@ -353,7 +359,8 @@ func vh_leadership_transfer() {
 	}
 	vAssert(len(env.trans.timeoutNowTo) <= 1, "C17.transfer.one-timeout-now")
 	for _, id := range env.trans.timeoutNowTo {
-		vAssert(id == servers[1].ID, "C17.transfer.timeout-now-to-voter-peer")
+		vAssert(vHasVoteT(r.configurations.latest, id) && id != r.localID, "C17.transfer.timeout-now-to-voter-peer")
+		vAssert(vHasVoteT(r.configurations.latest, id) && id != r.localID, "C07.transfer.target-is-a-voter")
 	}
 	vReach("transfer.end")
 }
